@@ -1475,6 +1475,9 @@ def run(ctx):
             term, ids = term_L(c, obs)
             ctx.count('L_cases')
             ctx.count('L_cases_authored_as_workbook', int(bool(c.get('xls'))))
+            if c.get('xls'):
+                ctx.count('L_workbook_rows_with_target_and_impairment_ids',
+                          sum(1 for r in c['xls']['rows'] if r['target'] is not None and r['from']))
             ctx.count('L_' + ('accepted' if obs['stage'] is None else f"rejected_{obs['stage'][0]}_{obs['stage'][1]}"))
             for key, desc in oracle_L(c, obs):
                 ctx.violation(key, desc, pub)
